@@ -115,7 +115,7 @@ func c15Family(n int) []uriSpec {
 	hlists := subsetsOrdered(hmenu, 2)
 	var bases []uriSpec
 	total := len(schemes) * len(users) * len(passes) * len(hosts) * len(ports) * len(plists) * len(hlists)
-	want := n / 4
+	want := n / 8
 	stride := total/want + 1
 	for idx := 0; idx < total; idx += stride {
 		i := idx
@@ -205,6 +205,15 @@ func c15Family(n int) []uriSpec {
 		v3 := b // only parameter order and name case
 		v3.Params = rev(up(b.Params, true, false))
 		fam = append(fam, v3)
+		v4 := b // no parameters at all
+		v4.Params = nil
+		v5 := b // exactly one parameter: one of user/ttl/method/maddr, or an ordinary one
+		v5.Params = []string{[]string{"user=phone", "ttl=1", "method=INVITE", "maddr=m", "x=1", "lr"}[bi%6]}
+		v6 := b // no headers / one header
+		v6.Hdrs = nil
+		v7 := b
+		v7.Hdrs = []string{"a=1"}
+		fam = append(fam, v4, v5, v6, v7)
 	}
 	if len(fam) > n {
 		fam = fam[:n]
